@@ -84,6 +84,14 @@ def check(F, ck, rule, labels=None, floor=30):
         if fn is None:
             ck.ob(rule, 'anchor:' + q, False, 'ANCHOR-MISSING: entry point %s' % q, q)
             continue
+        # the proof parameter is identified by name, or by type if it was renamed
+        from .facts import pat_binds, ty_adt
+        pnames = {b['n']: (fn.types[b['t']] if b.get('t') is not None else '') for p in fn.params for b in pat_binds(p)}
+        if root not in pnames:
+            want = ty.split('<')[0].split('::')[-1]
+            alt = [n for n, t in pnames.items() if ty_adt(t) == want]
+            if len(alt) == 1:
+                root = alt[0]
         fl = flow.Flow(F, fn, inline=C.inline_only(names), depth=5)
         pins = set()
         for e in fl.events:
